@@ -121,7 +121,8 @@ def run(tier, seed, rng):
                         dap, dgp = np.maximum(da, 0), np.maximum(dg, 0)
                         kappa = (dgp.max() * dap.max() + cfg['damping']) / (dgp.min() * dap.min() + cfg['damping'])
                         rel = float(np.linalg.norm(got - V) / max(np.linalg.norm(V), 1e-30))
-                        if rel > 64 * EPS32 * max(kappa, 1) + 1e-6:
+                        # the implementation decomposes the factors in float32 (backward error ~ n * eps32 * |factor|), the model gets a float64 decomposition
+                        if rel > 64 * max(len(da), len(dg)) * EPS32 * max(kappa, 1) + 1e-6:
                             diffs.append(f'step {si} layer {li} model-parallel rank {j}: differs from extracted neox_precondition (rel {rel:.2e})')
         # factors (gathered state) equal the unsharded ones
         for i, e in enumerate(hist):
